@@ -1,10 +1,16 @@
-"""C06 Block-wise server: handlers see only complete bodies, blocks are exact slices."""
+"""C06 Block-wise server: handlers see only complete bodies, blocks are exact slices.
+
+All clauses are phrased over the symbolic paths of the anchored functions (`_kit_c06.SymExec`): what is stored /
+raised / returned / called under which *facts*, with every local resolved to its value on that path.  Nothing depends
+on the nesting of `if`s, early returns, named temporaries, conditional expressions against statements, `min()` against
+a comparison, swapped arms, De Morgan forms or helper functions introduced by a clean-up."""
 
 import ast
 
 from ..rulekit import *
-from ..norm import Normalizer, Poly, NormError, consteval
+from ..norm import Normalizer, NormError
 from ..exc import EscapeAnalysis
+from ._kit_c06 import SymExec, txt, parse as P, callable_body, _walk_values
 
 R = Rules(
     "C06",
@@ -12,15 +18,18 @@ R = Rules(
         "Structural clauses of server-side block-wise handling: (a) the escape set of Block1Spool.feed_and_take over its "
         "resolved closure is a subset of {ContinueException (2.31), IncompleteException (4.08), error.BadRequest (4.00)} -- "
         "anything else becomes 5.00; (b) the Continue response echoes the request's own Block1 option; (c) the transfer key "
-        "is (remote.blockwise_key, code, cache key without Block1/Block2/Observe); (d) the append of a block is dominated "
-        "by `block1.start == len(payload)` and the size check raises BadRequest; (e) feed_and_take returns normally only "
-        "without Block1 or with the more-flag clear, and the handler is rendered only after it returned; (f) the Block2 "
-        "cache renders iff Block2 is absent or number 0, otherwise looks up (KeyError -> 4.08) and slices through "
-        "_extract_block (out of range -> 4.00, more-flag iff bytes remain); (g) TimeoutDict refreshes on get and set, "
-        "_tick keeps exactly the recently accessed keys and re-arms iff items remain, and both stores use "
+        "is (remote.blockwise_key, code, cache key without Block1/Block2/Observe); (d) on every path of "
+        "_append_request_block the assembly is extended exactly when `block1.start == len(payload)` (otherwise it raises "
+        "and leaves the assembly untouched) and a non-final block of the wrong size raises BadRequest; (e) feed_and_take "
+        "returns normally only without Block1 or with the more-flag clear, block 0 (re)starts and later blocks extend the "
+        "assembly of the same transfer key, and the handler is rendered only with what feed_and_take returned; (f) the "
+        "Block2 cache renders on exactly the paths on which Block2 is absent or number 0, otherwise looks up (KeyError -> "
+        "4.08) and slices through _extract_block, which on every path raises 4.00 iff NUM*2**(SZX+4) >= len(body), returns "
+        "body[start:min(start+size, len)] and sets the more-flag iff start+size < len(body); (g) TimeoutDict refreshes on "
+        "get and set, _tick keeps exactly the recently accessed keys and re-arms iff items remain, and both stores use "
         "MAX_TRANSMIT_WAIT (paper step: lifetime in [T, 2T]).  Interleavings of several clients at run time are not decided."
     ),
-    rule_text="escape sets over the resolved call graph with class-code facts; dominance/guard rules; normal forms of block arithmetic",
+    rule_text="escape sets over the resolved call graph with class-code facts; symbolic path facts (interval facts for block arithmetic, truth facts otherwise) with forward-substituted values",
 )
 
 BW = "blockwise."
@@ -29,6 +38,9 @@ ALLOWED = {
     "aiocoap.blockwise.IncompleteException": "REQUEST_ENTITY_INCOMPLETE",
     "aiocoap.error.BadRequest": "BAD_REQUEST",
 }
+CONT = "aiocoap.blockwise.ContinueException"
+INCOMPLETE = "aiocoap.blockwise.IncompleteException"
+BADREQ = "aiocoap.error.BadRequest"
 
 
 def fake(line):
@@ -42,41 +54,203 @@ def _class_code(prog, qn):
     return chain(v).split(".")[-1] if v is not None and chain(v) else None
 
 
-def _same_key_established(fi, sub, field):
-    """Lemma L6: a read `self.F[k]` cannot raise KeyError when every path to
-    it passes a store `self.F[k] = ...` or another read `self.F[k]` with the
-    same (unmodified) key local in the same plain def."""
-    if not is_plain_sync(fi):
-        return False
-    cfg = cfg_of(fi)
-    key = sub.slice
-    if not isinstance(key, ast.Name) or len(writes_to_name(fi.node, key.id)) != 1:
+class _Agg:
+    """One obligation per (text, construct): refuted when it fails on any path; the detail names the first such path."""
+
+    def __init__(self, ctx, fi):
+        self.ctx, self.fi = ctx, fi
+        self.items = {}
+
+    def add(self, desc, ok, node, detail=None, construct=None):
+        k = (desc, construct if construct is not None else id(node))
+        it = self.items.setdefault(k, [desc, True, node, None, construct])
+        if not ok and it[1]:
+            it[1] = False
+            it[3] = detail
+        return ok
+
+    def flush(self):
+        for desc, ok, node, detail, construct in self.items.values():
+            self.ctx.ob(desc, ok, self.fi, node, detail=detail, construct=construct)
+        self.items = {}
+
+
+def _where(sx, facts):
+    return "on the path [%s]" % facts.describe()
+
+
+def _exc_of(EA, fi, ev):
+    """class of the exception raised by a raise event (the raised expression resolved through locals)"""
+    e = ev.value if ev.value is not None else ev.node.exc
+    if e is None:
+        return None
+    return EA._exc_class(fi, e)
+
+
+def _end_class(EA, fi, p):
+    ev = p.raised()
+    return _exc_of(EA, fi, ev) if ev is not None else None
+
+
+def _handler_catches(cfg, hid, names):
+    h = cfg.nodes[hid].ast
+    if h.type is None:
+        return True
+    ts = h.type.elts if isinstance(h.type, ast.Tuple) else [h.type]
+    got = {(chain(t) or "").split(".")[-1] for t in ts}
+    return bool(got & (set(names) | {"Exception", "BaseException"}))
+
+
+def _reads(sx, p, field):
+    """(event, subscript node, resolved key) of every executed read `field[key]` on the path"""
+    for ev in p.events:
+        if ev.raw is None or ev.kind == "exc":
+            continue
+        for n in _walk_values(ev.raw):
+            if isinstance(n, ast.Subscript) and isinstance(n.ctx, ast.Load) and not isinstance(n.slice, ast.Slice):
+                if chain(sx.resolve(n.value, ev)) == field:
+                    yield ev, n, sx.resolve(n.slice, ev)
+
+
+def _failed_reads(sx, p, field, cfg):
+    """(exc event, handler id) for every read of `field[...]` on the path that ended in a handler of this function"""
+    for ev in p.events:
+        if ev.kind != "exc" or not isinstance(ev.node, ast.AST):
+            continue
+        for n in _walk_values(ev.node):
+            if isinstance(n, ast.Subscript) and isinstance(n.ctx, ast.Load) and chain(sx.subst(n.value, ev.env, ev.chains)) == field:
+                yield ev, ev.value, sx.subst(n.slice, ev.env, ev.chains)
+                break
+
+
+def _stores(p, field, kind="setitem"):
+    return [ev for ev in p.events if ev.kind == kind and isinstance(ev.target, ast.AST) and chain(ev.target) == field]
+
+
+def _calls(sx, p, attr=None, name=None):
+    """executed call sites whose resolved callee is `<recv>.attr` / the plain name `name`"""
+    for ev, c, r in sx.calls(p):
+        if attr is not None and isinstance(r.func, ast.Attribute) and r.func.attr == attr:
+            yield ev, c, r
+        elif name is not None and isinstance(r.func, ast.Name) and r.func.id == name:
+            yield ev, c, r
+
+
+def _arg(call, idx, kw):
+    if len(call.args) > idx and not any(isinstance(a, ast.Starred) for a in call.args[: idx + 1]):
+        return call.args[idx]
+    for k in call.keywords:
+        if k.arg == kw:
+            return k.value
+    return None
+
+
+def _bt_fields(prog):
+    """field names of optiontypes.BlockOption.BlockwiseTuple (a namedtuple), in order"""
+    ci = prog.cls("optiontypes.BlockOption.BlockwiseTuple")
+    for b in ci.node.bases:
+        if isinstance(b, ast.Call) and (chain(b.func) or "").endswith("namedtuple") and len(b.args) >= 2:
+            f = b.args[1]
+            if isinstance(f, (ast.List, ast.Tuple)) and all(isinstance(x, ast.Constant) for x in f.elts):
+                return [x.value for x in f.elts]
+            if isinstance(f, ast.Constant) and isinstance(f.value, str):
+                return f.value.replace(",", " ").split()
+    raise AnalysisError("BlockwiseTuple is not a namedtuple with literal field names")
+
+
+def _block_domains(opt, fields):
+    """Value ranges of the components of a block option as they come off the wire (BlockOption.decode: number =
+    as_integer >> 4 is unsigned, more = bool(bit 3), size exponent = 3 bits): `number > 0`, `number >= 1`,
+    `number != 0`, `number` are the same fact, as are `more`, `more == 1`, `more is True`."""
+    return {"%s.%s" % (opt, fields[0]): (0, float("inf")), "%s.%s" % (opt, fields[1]): (0, 1), "%s.%s" % (opt, fields[2]): (0, 7)}
+
+
+def _field_of(e, fields):
+    """Normal form of a component of a block option value: X.block_number == X[0], BlockwiseTuple(a, b, c).more == b,
+    (a, b, c)[2] == c.   -> ('of', base expr, index) | ('val', expr)"""
+    idx = None
+    base = None
+    if isinstance(e, ast.Attribute) and e.attr in fields:
+        idx, base = fields.index(e.attr), e.value
+    elif isinstance(e, ast.Subscript) and isinstance(e.slice, ast.Constant) and isinstance(e.slice.value, int) and 0 <= e.slice.value < len(fields):
+        idx, base = e.slice.value, e.value
+    if idx is None:
+        return ("val", e)
+    if isinstance(base, ast.Call) and (chain(base.func) or "").split(".")[-1] == "BlockwiseTuple":
+        v = _arg(base, idx, fields[idx])
+        if v is not None:
+            return ("val", v)
+    if isinstance(base, ast.Tuple) and len(base.elts) == len(fields):
+        return ("val", base.elts[idx])
+    return ("of", base, idx)
+
+
+def _is_field(e, fields, base, name):
+    r = _field_of(e, fields)
+    return r[0] == "of" and same(r[1], base) and r[2] == fields.index(name)
+
+
+# ---------------------------------------------------------------------------------------------------------------------
+
+
+def _key_established(sx, paths, cfg, sub, field):
+    """Lemma L6: a read `self.F[k]` cannot raise KeyError when, on every path on which it is executed, an earlier
+    statement of the same atomic (plain) function has stored to or successfully read `self.F[k']` with k' the same
+    value, and nothing has removed entries in between."""
+    if not is_plain_sync(sx.fi):
         return False
     nid = cfg.loc1(sub)
-    est = set()
-    for n in walk_no_nested(fi.node):
-        if isinstance(n, ast.Subscript) and n is not sub and chain(n.value) == field and same(n.slice, key):
-            x = cfg.loc1(n)
-            if x != nid:
-                est.add(x)
-    # removal of the key in between would invalidate the lemma
-    for k, n in stores_to(fi.node, field, nested=False):
-        if k in ("pop", "delitem", "clear", "assign"):
-            return False
-    return bool(est) and not cfg.exists_path(cfg.entry, nid, avoid=est, skip_labels=("exc",))
+    seen = False
+    for p in paths:
+        for i, ev in enumerate(p.events):
+            if ev.nid != nid or ev.kind == "exc" or ev.raw is None or not contains(ev.raw, sub):
+                continue
+            K = sx.resolve(sub.slice, ev)
+            est = False
+            for ev2 in p.events[:i]:
+                if ev2.kind == "exc":
+                    continue
+                if ev2.kind in ("store", "delitem", "del") and isinstance(ev2.target, ast.AST) and chain(ev2.target) == field:
+                    return False
+                if ev2.kind == "setitem" and chain(ev2.target) == field and same(ev2.key, K):
+                    est = True
+                if ev2.raw is None:
+                    continue
+                for n in _walk_values(ev2.raw):
+                    if isinstance(n, ast.Subscript) and isinstance(n.ctx, ast.Load) and chain(sx.resolve(n.value, ev2)) == field and same(sx.resolve(n.slice, ev2), K):
+                        est = True
+                    if isinstance(n, ast.Call) and isinstance(n.func, ast.Attribute) and n.func.attr in ("pop", "popitem", "clear") and chain(sx.resolve(n.func.value, ev2)) == field:
+                        return False
+            if not est:
+                return False
+            seen = True
+    return seen
+
+
+def _in_try(cfg, n):
+    p = cfg.parent.get(id(n))
+    while p is not None:
+        if isinstance(p, ast.Try):
+            return True
+        p = cfg.parent.get(id(p))
+    return False
 
 
 @R.clause("C06.a", "only 2.31 / 4.08 / 4.00 conditions leave Block1Spool.feed_and_take")
 def a(ctx):
     prog = ctx.prog
     fi = prog.func(BW + "Block1Spool.feed_and_take")
+    rq = params(fi)[0]
+    cfg = cfg_of(fi)
     EA = EscapeAnalysis(prog)
-    # L6: the final `return self._assemblies[block_key]`
+    sx = SymExec(prog, fi)
+    sx.nonempty_when_set = {"%s.opt.block1" % rq}
+    sx.domains = _block_domains("%s.opt.block1" % rq, _bt_fields(prog))
+    paths = sx.paths()
+    # L6: e.g. the final `return self._assemblies[block_key]`
     for n in walk_no_nested(fi.node):
-        if isinstance(n, ast.Subscript) and chain(n.value) == "self._assemblies" and isinstance(n.ctx, ast.Load):
-            cfg = cfg_of(fi)
-            in_try = any(isinstance(p_, ast.Try) for p_ in _ancestors(cfg, n))
-            if not in_try and _same_key_established(fi, n, "self._assemblies"):
+        if isinstance(n, ast.Subscript) and isinstance(n.ctx, ast.Load) and chain(resolve_local(fi.node, n.value)) == "self._assemblies":
+            if not _in_try(cfg, n) and _key_established(sx, paths, cfg, n, "self._assemblies"):
                 EA.dead_nodes.add(id(n))
                 EA.lemmas_used.append("L6 %s: key established on every path by an earlier store/read of the same key in this atomic function" % stmt_text(n))
     es = EA.escapes(fi)
@@ -92,7 +266,7 @@ def a(ctx):
     }
     ctx.floor("functions in the closure of feed_and_take", len(funcs), 6)
     ctx.need(not EA.unresolved, "unresolved calls in the region: %s" % EA.unresolved[:4])
-    ctx.need(("blockwise.Block1Spool.feed_and_take", "_append_request_block") in set(EA.res.by_unique_name) or any("_append_request_block" in f for f in funcs), "_append_request_block not part of the analysed closure")
+    ctx.need(any(f.endswith("._append_request_block") for f in funcs), "_append_request_block not part of the analysed closure")
     seen_allowed = set()
     bad = []
     for e in es:
@@ -109,233 +283,493 @@ def a(ctx):
     for qn, code in ALLOWED.items():
         ctx.ob("%s renders as %s" % (qn.split(".")[-1], code), _class_code(prog, qn) == code and prog.is_subclass(qn, "aiocoap.error.RenderableError"), None, None, construct="class %s" % qn.split(".")[-1], detail="code attribute %s" % _class_code(prog, qn))
     ctx.ob("all three outcomes are produced", seen_allowed == set(ALLOWED), fi, fi.node, construct="Block1Spool.feed_and_take outcomes", detail=str(sorted(seen_allowed)))
-    # which condition yields which answer: a failed lookup / failed assembly -> Incomplete; more -> Continue
-    cfg = cfg_of(fi)
-    for r in [n for n in walk_no_nested(fi.node) if isinstance(n, ast.Raise)]:
-        cls = EA._exc_class(fi, r.exc)
-        if cls == "aiocoap.blockwise.ContinueException":
-            ctx.ob("2.31 Continue is produced exactly for blocks with the more-flag", guarded_by(cfg, cfg.loc1(r), "$r.opt.block1.more", True), fi, r)
-
-
-def _ancestors(cfg, n):
-    p = cfg.parent.get(id(n))
-    while p is not None:
-        yield p
-        p = cfg.parent.get(id(p))
+    # which condition yields which answer: 2.31 only for blocks that announce more
+    MORE = P("%s.opt.block1.more" % rq)
+    ag = _Agg(ctx, fi)
+    for p in paths:
+        ev = p.raised()
+        if ev is not None and _exc_of(EA, fi, ev) == CONT:
+            ag.add("2.31 Continue is produced exactly for blocks with the more-flag", sx.entails(p.facts, MORE), ev.node, detail=_where(sx, p.facts))
+    ag.flush()
 
 
 @R.clause("C06.b", "the 2.31 response echoes the request's own Block1 option")
 def b(ctx):
-    fi = ctx.prog.func(BW + "Block1Spool.feed_and_take")
+    prog = ctx.prog
+    fi = prog.func(BW + "Block1Spool.feed_and_take")
     rq = params(fi)[0]
-    raises = [n for n in walk_no_nested(fi.node) if isinstance(n, ast.Raise) and isinstance(n.exc, ast.Call) and (chain(n.exc.func) or "").endswith("ContinueException")]
-    ctx.floor("ContinueException raise sites", len(raises), 1)
-    for r in raises:
-        ctx.ob("Continue is constructed from the request's Block1 option", len(r.exc.args) == 1 and chain(r.exc.args[0]) == rq + ".opt.block1", fi, r)
-    init = ctx.prog.func(BW + "ContinueException.__init__")
-    p = params(init)[0]
-    st = [n for n in walk_no_nested(init.node) if isinstance(n, ast.Assign) and isinstance(n.value, ast.Name) and n.value.id == p and isinstance(n.targets[0], ast.Attribute)]
-    ctx.need(len(st) == 1, "ContinueException.__init__ does not store its argument in one attribute")
-    attr = st[0].targets[0].attr
-    tm = ctx.prog.func(BW + "ContinueException.to_message")
-    stores = [n for n in walk_no_nested(tm.node) if isinstance(n, ast.Assign) and isinstance(n.targets[0], ast.Attribute) and n.targets[0].attr == "block1" and chain(n.value) == "self." + attr]
-    rets = [n for n in walk_no_nested(tm.node) if isinstance(n, ast.Return)]
-    ok = len(stores) == 1 and len(rets) == 1 and isinstance(rets[0].value, ast.Name) and chain(stores[0].targets[0]) == rets[0].value.id + ".opt.block1"
-    ctx.ob("to_message writes exactly that value into the response's Block1 option", ok, tm, stores[0] if stores else tm.node)
-    base = isinstance(resolve_local(tm.node, rets[0].value), ast.Call) and match("super().to_message()", resolve_local(tm.node, rets[0].value)) is not None if rets else False
-    ctx.ob("the response is the error's own rendering (code 2.31)", base, tm, rets[0] if rets else tm.node)
+    EA = EscapeAnalysis(prog)
+    sx = SymExec(prog, fi)
+    paths = sx.paths()
+    own = P("%s.opt.block1" % rq)
+    ag = _Agg(ctx, fi)
+    n = 0
+    for p in paths:
+        ev = p.raised()
+        if ev is None or _exc_of(EA, fi, ev) != CONT:
+            continue
+        n += 1
+        v = ev.value
+        arg = None
+        if isinstance(v, ast.Call):
+            ip = params(prog.func(BW + "ContinueException.__init__"))
+            arg = _arg(v, 0, ip[0]) if ip else None
+        ag.add("Continue is constructed from the request's Block1 option", arg is not None and same(arg, own), ev.node, detail="argument %s" % (txt(arg) if arg is not None else None))
+    ctx.floor("paths raising ContinueException", n, 1)
+    ag.flush()
+    init = prog.func(BW + "ContinueException.__init__")
+    ip = params(init)[0]
+    si = SymExec(prog, init)
+    attrs = set()
+    for p in si.paths():
+        got = {ev.target.attr for ev in p.evs("store") if isinstance(ev.target, ast.Attribute) and chain(ev.target.value) == "self" and isinstance(ev.value, ast.Name) and ev.value.id == ip}
+        ctx.need(len(got) == 1, "ContinueException.__init__ does not store its argument in one attribute")
+        attrs |= got
+    ctx.need(len(attrs) == 1, "ContinueException.__init__ does not store its argument in one attribute")
+    attr = attrs.pop()
+    tm = prog.func(BW + "ContinueException.to_message")
+    st = SymExec(prog, tm)
+    ag = _Agg(ctx, tm)
+    tpaths = [p for p in st.paths() if p.end != "raise"]
+    ctx.floor("normal paths of ContinueException.to_message", len(tpaths), 1)
+    for p in tpaths:
+        rnode = next((ev.node for ev in reversed(p.events) if ev.kind == "ret"), tm.node)
+        ret = p.ret
+        w = [ev for ev in p.evs("store") if isinstance(ev.target, ast.Attribute) and ev.target.attr == "block1" and ret is not None and same(ev.target.value, ast.Attribute(value=ret, attr="opt", ctx=ast.Load()))]
+        okw = len(w) >= 1 and same(w[-1].value, P("self.%s" % attr))
+        ag.add("to_message writes exactly that value into the response's Block1 option", okw, w[-1].node if w else rnode, construct="ContinueException.to_message block1", detail="stored %s" % (txt(w[-1].value) if w else None))
+        ag.add("the response is the error's own rendering (code 2.31)", ret is not None and match("super().to_message()", ret) is not None, rnode, construct="ContinueException.to_message result")
+    ag.flush()
+
+
+def _literal_elts(prog, fi, e):
+    """elements of a literal collection, also behind a module-level constant or a list()/tuple()/set()/frozenset() call"""
+    for _ in range(4):
+        if isinstance(e, (ast.List, ast.Tuple, ast.Set)):
+            return list(e.elts)
+        if isinstance(e, ast.Call) and chain(e.func) in ("list", "tuple", "set", "frozenset") and len(e.args) == 1 and not e.keywords:
+            e = e.args[0]
+            continue
+        if isinstance(e, ast.Name):
+            try:
+                e = prog.module_const(fi.module.name, e.id)
+            except AnchorError:
+                return None
+            continue
+        return None
+    return None
+
+
+def _iter_roles(sx, it, target, coll):
+    """A loop / comprehension `for target in it` over the mapping `coll`: -> (key expr, value expr) of the element, or None.
+    Spellings: coll.items() with a pair target; coll / coll.keys() / list(coll) / sorted(coll) with a plain target."""
+    while isinstance(it, ast.Call) and chain(it.func) in ("list", "tuple", "sorted", "iter") and len(it.args) == 1 and not it.keywords:
+        it = it.args[0]
+    if isinstance(it, ast.Call) and isinstance(it.func, ast.Attribute) and not it.args and not it.keywords and chain(it.func.value) == coll:
+        if it.func.attr == "items" and isinstance(target, (ast.Tuple, ast.List)) and len(target.elts) == 2:
+            return target.elts[0], target.elts[1]
+        if it.func.attr == "keys" and isinstance(target, ast.Name):
+            return target, ast.Subscript(value=P(coll), slice=target, ctx=ast.Load())
+        return None
+    if chain(it) == coll and isinstance(target, ast.Name):
+        return target, ast.Subscript(value=P(coll), slice=target, ctx=ast.Load())
+    return None
 
 
 @R.clause("C06.c", "transfer key = (remote.blockwise_key, code, cache key ignoring Block1/Block2/Observe)")
 def c(ctx):
-    fi = ctx.prog.func(BW + "_extract_block_key")
+    prog = ctx.prog
+    fi = prog.func(BW + "_extract_block_key")
     m = params(fi, skip_self=False)[0]
-    rets = [n for n in walk_no_nested(fi.node) if isinstance(n, ast.Return)]
-    ctx.need(len(rets) == 1, "_extract_block_key is not single-return")
-    v = resolve_local(fi.node, rets[0].value)
-    b_ = match("($a, $b, $c)", v)
-    ctx.ob("the key is a 3-tuple", b_ is not None, fi, rets[0])
-    if b_ is None:
-        return
-    ctx.ob("first component separates endpoints (remote.blockwise_key)", chain(b_["a"]) == m + ".remote.blockwise_key", fi, rets[0], construct="_extract_block_key component 1: %s" % stmt_text(b_["a"]))
-    ctx.ob("second component separates methods (code)", chain(b_["b"]) == m + ".code", fi, rets[0], construct="_extract_block_key component 2: %s" % stmt_text(b_["b"]))
-    cb = match("%s.get_cache_key($l)" % m, b_["c"])
-    ign = None
-    if cb is not None and isinstance(cb["l"], (ast.List, ast.Tuple, ast.Set)):
-        ign = {chain(e).split(".")[-1] for e in cb["l"].elts if chain(e)}
-    ctx.ob("third component is the cache key ignoring exactly Block1, Block2 and Observe", ign == {"BLOCK1", "BLOCK2", "OBSERVE"}, fi, rets[0], construct="_extract_block_key component 3: %s" % stmt_text(b_["c"]), detail=str(ign))
+    sx = SymExec(prog, fi)
+    paths = [p for p in sx.paths() if p.end != "raise"]
+    ctx.need(len(paths) >= 1 and all(p.end == "return" and p.ret is not None for p in paths), "_extract_block_key does not return a value on every path")
+    ag = _Agg(ctx, fi)
+    for p in paths:
+        rnode = next(ev.node for ev in reversed(p.events) if ev.kind == "ret")
+        v = p.ret
+        is3 = isinstance(v, ast.Tuple) and len(v.elts) == 3
+        ag.add("the key is a 3-tuple", is3, rnode, construct="_extract_block_key result")
+        if not is3:
+            continue
+        c1, c2, c3 = v.elts
+        ag.add("first component separates endpoints (remote.blockwise_key)", chain(c1) == m + ".remote.blockwise_key", rnode, construct="_extract_block_key component 1", detail=txt(c1))
+        ag.add("second component separates methods (code)", chain(c2) == m + ".code", rnode, construct="_extract_block_key component 2", detail=txt(c2))
+        ign = None
+        if isinstance(c3, ast.Call) and chain(c3.func) == m + ".get_cache_key":
+            gp = params(prog.func("message.Message.get_cache_key"))
+            l = _arg(c3, 0, gp[0]) if gp else None
+            elts = _literal_elts(prog, fi, l) if l is not None else None
+            if elts is not None and all(chain(e) for e in elts):
+                ign = {chain(e).split(".")[-1] for e in elts}
+        ag.add("third component is the cache key ignoring exactly Block1, Block2 and Observe", ign == {"BLOCK1", "BLOCK2", "OBSERVE"}, rnode, construct="_extract_block_key component 3", detail="%s ignoring %s" % (txt(c3), sorted(ign) if ign is not None else None))
+    ag.flush()
     # blockwise_key of the UDP address keeps sockaddr (and local address)
-    bk = ctx.prog.cls("transports.udp6.UDP6EndpointAddress").methods.get("blockwise_key")
+    bk = prog.cls("transports.udp6.UDP6EndpointAddress").methods.get("blockwise_key")
     ctx.need(bk is not None, "UDP6EndpointAddress.blockwise_key missing")
-    r = [n for n in walk_no_nested(bk.node) if isinstance(n, ast.Return)]
-    okk = len(r) == 1 and any(chain(x) == "self.sockaddr" for x in ast.walk(r[0].value))
-    ctx.ob("the UDP endpoint's blockwise_key contains the peer socket address", okk, bk, r[0] if r else bk.node)
-    # get_cache_key: skips ignore_options and NoCacheKey options, includes (number, value) otherwise, plus code
-    gk = ctx.prog.func("message.Message.get_cache_key")
+    sb = SymExec(prog, bk)
+    bpaths = [p for p in sb.paths() if p.end != "raise"]
+    ctx.need(bpaths, "UDP6EndpointAddress.blockwise_key has no normal path")
+    okk = all(p.ret is not None and any(chain(x) == "self.sockaddr" for x in ast.walk(p.ret)) for p in bpaths)
+    ctx.ob("the UDP endpoint's blockwise_key contains the peer socket address", okk, bk, bk.node, construct="UDP6EndpointAddress.blockwise_key")
+    # get_cache_key: an option enters the key as (number, value), and never when its number is listed in ignore_options
+    gk = prog.func("message.Message.get_cache_key")
     ig = params(gk)[0]
-    cfg = cfg_of(gk)
-    apps = [c_ for c_, bb in find("$l.append(($n, $v))", gk.node)]
-    ctx.floor("cache key accumulation sites", len(apps), 1)
-    for c_ in apps:
-        nid = cfg.loc1(c_)
-        gs = guard_exprs(cfg, nid)
-        skip_ign = any((not pol) and isinstance(e, ast.Compare) and isinstance(e.ops[0], ast.In) and chain(e.comparators[0]) == ig for e, pol in gs) or \
-            any(pol and isinstance(e, ast.Compare) and isinstance(e.ops[0], ast.NotIn) and chain(e.comparators[0]) == ig for e, pol in gs)
-        # with `if A or (B and C): continue` the F side of A dominates
-        ctx.ob("options listed in ignore_options never enter the key", skip_ign, gk, c_, detail="guards %s" % [(stmt_text(e), p) for e, p in gs])
-        tb = match("$l.append(($n, $v))", c_)
-        ctx.ob("every other cache-key option enters the key with number and value", chain(tb["n"]).endswith(".number") and chain(tb["v"]).endswith(".value"), gk, c_)
+    sg = SymExec(prog, gk)
+    gpaths = sg.paths()
+    ag = _Agg(ctx, gk)
+    sites = 0
+
+    def member(o, elt, facts_true, node, what):
+        # `facts_true`: the facts under which the element enters the key
+        nonlocal sites
+        sites += 1
+        IGN = ast.Compare(left=ast.Attribute(value=o, attr="number", ctx=ast.Load()), ops=[ast.In()], comparators=[ast.Name(id=ig, ctx=ast.Load())])
+        ag.add("options listed in ignore_options never enter the key", all(sg.refutes(f, IGN) for f in facts_true), node, construct="get_cache_key %s: filter" % what, detail="facts %s" % [f.describe() for f in facts_true][:2])
+        oke = isinstance(elt, ast.Tuple) and len(elt.elts) == 2 and same(elt.elts[0], ast.Attribute(value=o, attr="number", ctx=ast.Load())) and same(elt.elts[1], ast.Attribute(value=o, attr="value", ctx=ast.Load()))
+        ag.add("every other cache-key option enters the key with number and value", oke, node, construct="get_cache_key %s: element" % what, detail=txt(elt))
+
+    def opt_iter(it):
+        return isinstance(it, ast.Call) and chain(it.func) == "self.opt.option_list" and not it.args
+
+    for p in gpaths:
+        if p.end == "raise":
+            continue
+        fors = [ev for ev in p.evs("for") if opt_iter(ev.value) and isinstance(ev.target, ast.Name)]
+        # loop + append / += [x] / extend([x]) into a local list
+        def reaches_result(name):
+            return p.ret is not None and name in names_in(p.ret)
+
+        for ev, c_, r in sg.calls(p):
+            if not (isinstance(r.func, ast.Attribute) and isinstance(r.func.value, ast.Name) and r.func.value.id in p.objs and len(r.args) == 1 and fors and reaches_result(r.func.value.id)):
+                continue
+            if r.func.attr in ("append", "add"):
+                member(fors[-1].target, r.args[0], [ev.facts], c_, "accumulation")
+            elif r.func.attr in ("extend", "update") and isinstance(r.args[0], (ast.List, ast.Tuple, ast.Set)):
+                for x in r.args[0].elts:
+                    member(fors[-1].target, x, [ev.facts], c_, "accumulation")
+        # `acc += [x]` / `acc = acc + [x]` inside the loop
+        for ev in p.evs("bind"):
+            v = ev.value
+            if fors and isinstance(v, ast.BinOp) and isinstance(v.op, ast.Add) and isinstance(v.right, (ast.List, ast.Tuple)) and any(isinstance(n, ast.Name) and n.id in p.objs for n in ast.walk(v.left)) and p.events.index(ev) > p.events.index(fors[-1]) and reaches_result(ev.target):
+                for x in v.right.elts:
+                    member(fors[-1].target, x, [ev.facts], ev.node, "accumulation")
+        # comprehension / generator over the option list, anywhere in what is returned (also behind a local list)
+        if p.ret is None:
+            continue
+        roots = [p.ret] + [v for k, v in p.objs.items() if k in names_in(p.ret)]
+        for root in roots:
+            for n in ast.walk(root):
+                if isinstance(n, (ast.ListComp, ast.GeneratorExp, ast.SetComp)) and len(n.generators) == 1 and opt_iter(n.generators[0].iter) and isinstance(n.generators[0].target, ast.Name):
+                    g = n.generators[0]
+                    cond = ast.BoolOp(op=ast.And(), values=list(g.ifs)) if len(g.ifs) > 1 else (g.ifs[0] if g.ifs else ast.Constant(value=True))
+                    sg._defs_now = p.defs
+                    sg._env_now = p.env
+                    outs = [f for b_, f in sg.decide(cond, p.facts) if b_]
+                    rnode = next(ev.node for ev in reversed(p.events) if ev.kind == "ret")
+                    ctx.need(outs, "get_cache_key: the comprehension filter is never true")
+                    member(g.target, n.elt, outs, rnode, "comprehension")
+    ctx.floor("cache key accumulation sites", sites, 1)
+    ag.flush()
 
 
 @R.clause("C06.d", "a block is appended only at the current end of the assembly; a wrong length is 4.00")
 def d(ctx):
-    fi = ctx.prog.func("message.Message._append_request_block")
+    prog = ctx.prog
+    fi = prog.func("message.Message._append_request_block")
     nb = params(fi)[0]
-    cfg = cfg_of(fi)
-    apps = [n for n in walk_no_nested(fi.node) if isinstance(n, ast.AugAssign) and chain(n.target) == "self.payload"] + \
-           [n for n in walk_no_nested(fi.node) if isinstance(n, ast.Assign) and any(chain(t) == "self.payload" for t in n.targets)]
-    ctx.floor("payload extension sites", len(apps), 1)
-    env = norm.local_env(fi.node)
-    N = Normalizer(env=env)
-    want = ("eq", Normalizer(env=env).cmp(ast.parse("%s.opt.block1.start == len(self.payload)" % nb, mode="eval").body)[1])
-    for a_ in apps:
-        nid = cfg.loc1(a_)
-        facts = cmp_guard_nf(cfg, nid, N)
-        ctx.ob("the assembly is extended only when the block starts exactly at its current length (no gap, no overlap)", want in facts, fi, a_, detail="guards %s" % sorted(map(repr, facts)))
-        val = a_.value
-        if isinstance(a_, ast.Assign):
-            bb = match("self.payload + $x", val)
-            val = bb["x"] if bb else None
-        ctx.ob("what is appended is the block's payload", val is not None and chain(val) == nb + ".payload", fi, a_)
-    # mismatching start raises (not silently ignored)
-    fnodes = [n.id for n in cfg.nodes if n.kind in ("T", "F") and isinstance(n.ast, ast.Compare)]
-    other = []
-    for n in cfg.nodes:
-        if n.kind in ("T", "F") and isinstance(n.ast, ast.Compare):
-            try:
-                cn = N.cmp(n.ast)
-            except NormError:
-                continue
-            holds = cn if n.kind == "T" else N.negate(cn)
-            if holds == N.negate(want):
-                other.append(n.id)
-    ctx.need(other, "_append_request_block has no branch on block1.start == len(payload)")
-    for o in other:
-        r = cfg.reach({o}, skip_labels=("exc",))
-        ctx.ob("a block that does not continue the assembly is refused (raises) and leaves the assembly untouched", cfg.exit not in r and not any(cfg.loc1(a_) in r for a_ in apps), fi, cfg.nodes[o].ast)
-    # size guard
-    raises = [n for n in walk_no_nested(fi.node) if isinstance(n, ast.Raise) and n.exc is not None and "BadRequest" in ast.unparse(n.exc)]
-    ctx.ob("a non-final block whose payload length contradicts its block size is answered 4.00", bool(raises), fi, raises[0] if raises else fi.node, construct=stmt_text(raises[0]) if raises else "def _append_request_block: size guard")
-    for r in raises:
-        nid = cfg.loc1(r)
-        gs = guard_exprs(cfg, nid)
-        Ng = Normalizer(env=env)
-        more = any(pol and Ng.atom_name(e) == nb + ".opt.block1.more" for e, pol in gs if isinstance(e, (ast.Attribute, ast.Name)))
-        want_sz = Ng.cmp(ast.parse("len(%s.payload) == %s.opt.block1.size" % (nb, nb), mode="eval").body)
-        eq_size = False
-        for e, pol in gs:
-            try:
-                cn = Ng.cmp(e)
-            except NormError:
-                continue
-            if (cn == want_sz and not pol) or (cn == Ng.negate(want_sz) and pol):
-                eq_size = True
-        ctx.ob("the size check applies to blocks with the more-flag and compares the payload length with the block size", more and eq_size, fi, r, detail="guards %s" % [(stmt_text(e), p) for e, p in gs])
-        for a_ in apps:
-            ctx.ob("the size check precedes the append", not cfg.exists_path(cfg.loc1(a_), nid), fi, r)
+    EA = EscapeAnalysis(prog)
+    sx = SymExec(prog, fi)
+    sx.domains = _block_domains("%s.opt.block1" % nb, _bt_fields(prog))
+    # the BERT case (size exponent 7: any multiple of the block size) belongs to C05
+    paths = sx.paths(assume=[("%s.opt.block1.size_exponent == 7" % nb, False)])
+    START = P("%s.opt.block1.start == len(self.payload)" % nb)
+    MORE = P("%s.opt.block1.more" % nb)
+    EQSZ = P("len(%s.payload) == %s.opt.block1.size" % (nb, nb))
+    ag = _Agg(ctx, fi)
+    n_app = n_bad = 0
+    for p in paths:
+        ctx.need(p.end in ("return", "fall", "raise"), "_append_request_block: loop in the path model")
+        apps = _stores(p, "self.payload", "store")
+        # a path whose decisions do not depend on the block at all is a precondition failure of the receiver, not a verdict on the block
+        about_block = any(nb in names_in(ev.value) for ev in p.evs("test"))
+        last = p.events[-1].node if p.events else fi.node
+        for ev in apps:
+            n_app += 1
+            ag.add("the assembly is extended only when the block starts exactly at its current length (no gap, no overlap)", sx.entails(ev.facts, START), ev.node, detail=_where(sx, ev.facts))
+            bb = match("self.payload + $x", ev.value) or match("b''.join([self.payload, $x])", ev.value) or match("b''.join((self.payload, $x))", ev.value)
+            ag.add("what is appended is the block's payload", bb is not None and same(bb["x"], P("%s.payload" % nb)), ev.node, detail=txt(ev.value))
+        if p.end == "raise" and not about_block and not apps:
+            continue
+        for st_ok, f in sx.decide(START, p.facts):
+            if not st_ok:
+                ag.add("a block that does not continue the assembly is refused (raises) and leaves the assembly untouched", p.end == "raise" and not apps, last, construct="_append_request_block: block out of place", detail=_where(sx, f))
+            for mo, f1 in sx.decide(MORE, f):
+                for eq, f2 in sx.decide(EQSZ, f1):
+                    if mo and not eq:
+                        ok = p.end == "raise" and not apps and (not st_ok or _end_class(EA, fi, p) == BADREQ)
+                        ag.add("a non-final block whose payload length contradicts its block size is answered 4.00", ok, last, construct="_append_request_block: size guard", detail="%s: ends with %s %s" % (_where(sx, f2), p.end, _end_class(EA, fi, p) or ""))
+        if p.end == "raise" and _end_class(EA, fi, p) == BADREQ:
+            n_bad += 1
+            ev = p.raised()
+            ag.add("the size check applies to blocks with the more-flag and compares the payload length with the block size", sx.entails(p.facts, MORE) and sx.refutes(p.facts, EQSZ), ev.node, detail=_where(sx, p.facts))
+            ag.add("the size check precedes the append", not apps, ev.node)
+    ctx.floor("payload extension sites", n_app, 1)
+    ag.add("a non-final block whose payload length contradicts its block size is answered 4.00", n_bad >= 1, fi.node, construct="_append_request_block: size guard", detail="no path raises BadRequest")
+    ag.flush()
 
 
 @R.clause("C06.e", "the handler runs only on complete bodies: feed_and_take returns only without Block1 or on the final block")
 def e(ctx):
-    fi = ctx.prog.func(BW + "Block1Spool.feed_and_take")
+    prog = ctx.prog
+    fi = prog.func(BW + "Block1Spool.feed_and_take")
     rq = params(fi)[0]
-    cfg = cfg_of(fi)
-    rets = [n for n in walk_no_nested(fi.node) if isinstance(n, ast.Return)]
-    ctx.floor("returns in feed_and_take", len(rets), 2)
+    sx = SymExec(prog, fi)
+    sx.nonempty_when_set = {"%s.opt.block1" % rq}
+    sx.domains = _block_domains("%s.opt.block1" % rq, _bt_fields(prog))
+    paths = sx.paths()
+    NOB1 = P("%s.opt.block1 is None" % rq)
+    MORE = P("%s.opt.block1.more" % rq)
+    ZERO = P("%s.opt.block1.block_number == 0" % rq)
+    K = P("_extract_block_key(%s)" % rq)
+    RQ = ast.Name(id=rq, ctx=ast.Load())
+    F = "self._assemblies"
+    ctx.floor("normal paths of feed_and_take", len([p for p in paths if p.end == "return"]), 2)
     ctx.ob("feed_and_take is atomic (plain def)", is_plain_sync(fi), fi, fi.node, construct="def feed_and_take")
-    for r in rets:
-        nid = cfg.loc1(r)
-        nob1 = guarded_by(cfg, nid, "%s.opt.block1 is None" % rq, True)
-        final = guarded_by(cfg, nid, "%s.opt.block1.more" % rq, False)
-        ctx.ob("a normal return happens only without Block1 or when the more-flag is clear", nob1 or final, fi, r)
-        if nob1:
-            ctx.ob("a request without Block1 is passed through unchanged", isinstance(r.value, ast.Name) and r.value.id == rq, fi, r)
-        elif final:
-            ctx.ob("on the final block the assembled request for this key is returned", match("self._assemblies[$k]", r.value) is not None, fi, r)
-    # block 0 (re)starts the assembly, others append to the existing one
-    stores = [(k, n) for k, n in stores_to(fi.node, "self._assemblies", nested=False) if k == "setitem"]
-    ctx.floor("assembly (re)start sites", len(stores), 1)
-    for k, st in stores:
-        nid = cfg.loc1(st)
-        ctx.ob("an assembly is (re)started only by block number 0", guarded_by(cfg, nid, "%s.opt.block1.block_number == 0" % rq, True), fi, st)
-        ctx.ob("the assembly starts with the request itself", isinstance(st.value, ast.Name) and st.value.id == rq, fi, st)
-    appc = [c_ for c_ in calls_in(fi.node) if isinstance(c_.func, ast.Attribute) and c_.func.attr == "_append_request_block"]
-    ctx.floor("append sites", len(appc), 1)
-    for c_ in appc:
-        nid = cfg.loc1(c_)
-        ctx.ob("later blocks are appended to the existing assembly of the same key", match("self._assemblies[$k]._append_request_block(%s)" % rq, c_) is not None and guarded_by(cfg, nid, "%s.opt.block1.block_number == 0" % rq, False), fi, c_)
-    # keys: all subscripts use the same key local from _extract_block_key(req)
-    keys = [n.slice for n in walk_no_nested(fi.node) if isinstance(n, ast.Subscript) and chain(n.value) == "self._assemblies"]
-    okk = all(isinstance(k, ast.Name) for k in keys) and len({k.id for k in keys}) == 1 and match("_extract_block_key(%s)" % rq, resolve_local(fi.node, keys[0])) is not None
-    ctx.ob("every access to the spool uses the transfer key of this request", okk, fi, fi.node, construct="feed_and_take key uses")
+    ag = _Agg(ctx, fi)
+    n_store = n_app = 0
+    for p in paths:
+        ctx.need(p.end in ("return", "fall", "raise"), "feed_and_take: loop in the path model")
+        stores = _stores(p, F)
+        apps = [(ev, c_, r) for ev, c_, r in _calls(sx, p, attr="_append_request_block")]
+        rnode = next((ev.node for ev in reversed(p.events) if ev.kind in ("ret", "raise")), fi.node)
+        for ev in stores:
+            n_store += 1
+            ag.add("an assembly is (re)started only by block number 0", sx.entails(ev.facts, ZERO) and sx.refutes(ev.facts, NOB1), ev.node, detail=_where(sx, ev.facts))
+            ag.add("the assembly starts with the request itself", same(ev.value, RQ), ev.node, detail=txt(ev.value))
+            ag.add("every access to the spool uses the transfer key of this request", same(ev.key, K), ev.node, construct="feed_and_take key uses", detail=txt(ev.key))
+        for ev, c_, r in apps:
+            n_app += 1
+            recv = r.func.value
+            okr = isinstance(recv, ast.Subscript) and chain(recv.value) == F and same(recv.slice, K) and len(r.args) == 1 and same(r.args[0], RQ)
+            ag.add("later blocks are appended to the existing assembly of the same key", okr and sx.refutes(ev.facts, ZERO) and sx.refutes(ev.facts, NOB1), c_, detail="%s %s" % (txt(r), _where(sx, ev.facts)))
+        for ev, n, key in _reads(sx, p, F):
+            ag.add("every access to the spool uses the transfer key of this request", same(key, K), ev.node, construct="feed_and_take key uses", detail=txt(key))
+        if p.end == "raise":
+            continue
+        for nob1, f in sx.decide(NOB1, p.facts):
+            if nob1:
+                ag.add("a request without Block1 is passed through unchanged", p.ret is not None and same(p.ret, RQ) and not stores and not apps, rnode, detail=_where(sx, f))
+                continue
+            ag.add("a normal return happens only without Block1 or when the more-flag is clear", sx.refutes(f, MORE), rnode, detail=_where(sx, f))
+            stored = [ev.value for ev in stores if same(ev.key, K)]
+            okret = p.ret is not None and ((isinstance(p.ret, ast.Subscript) and chain(p.ret.value) == F and same(p.ret.slice, K)) or any(same(p.ret, v) for v in stored[-1:]))
+            ag.add("on the final block the assembled request for this key is returned", okret, rnode, detail="returns %s" % (txt(p.ret) if p.ret is not None else None))
+            for z, f2 in sx.decide(ZERO, f):
+                if z:
+                    ag.add("block number 0 (re)starts the assembly", bool(stores), rnode, construct="feed_and_take: block 0", detail=_where(sx, f2))
+                else:
+                    ag.add("a later block reaches the handler only appended to the existing assembly", bool(apps) and not stores, rnode, construct="feed_and_take: continuation", detail=_where(sx, f2))
+    ctx.floor("assembly (re)start sites", n_store, 1)
+    ctx.floor("append sites", n_app, 1)
+    ag.flush()
     # Resource._render_to_pipe
-    rp = ctx.prog.func("interfaces.Resource._render_to_pipe")
-    rcfg = cfg_of(rp)
-    feeds = [c_ for c_ in calls_in(rp.node) if isinstance(c_.func, ast.Attribute) and c_.func.attr == "feed_and_take"]
-    renders = [c_ for c_ in ast.walk(rp.node) if isinstance(c_, ast.Call) and call_name(c_) == "self.render"]
-    ctx.floor("render call sites in Resource._render_to_pipe", len(renders), 2)
-    ctx.floor("feed_and_take call sites in Resource._render_to_pipe", len(feeds), 1)
-    for rc in renders:
-        nid = rcfg.loc1(rc)
-        asm = guarded_by(rcfg, nid, "await self.needs_blockwise_assembly($r)", True)
+    rp = prog.func("interfaces.Resource._render_to_pipe")
+    pipe = params(rp)[0]
+    sr = SymExec(prog, rp, include_exc=False)
+    rpaths = sr.paths()
+    PREQ = P("%s.request" % pipe)
+    ag = _Agg(ctx, rp)
+    n_asm = n_plain = 0
+    eoi = prog.func(BW + "Block2Cache.extract_or_insert")
+    eoi_p = params(eoi)
+    for p in rpaths:
+        tests = [ev for ev in p.evs("test") if match("await self.needs_blockwise_assembly($r)", ev.value) is not None]
+        if not tests or p.end == "raise":
+            continue
+        asm = tests[-1].outcome
+        calls = list(sr.calls(p))
+        direct = [(ev, c_, r) for ev, c_, r in calls if chain(r.func) == "self.render"]
+        feeds = [(i, ev, c_, r) for i, (ev, c_, r) in enumerate(calls) if isinstance(r.func, ast.Attribute) and r.func.attr == "feed_and_take"]
+        e2 = [(i, ev, c_, r) for i, (ev, c_, r) in enumerate(calls) if isinstance(r.func, ast.Attribute) and r.func.attr == "extract_or_insert"]
         if asm:
-            ok = any(rcfg.dominates(rcfg.loc1(f_), nid) and rcfg.loc1(f_) != nid for f_ in feeds)
-            ctx.ob("with block-wise assembly the handler is rendered only after feed_and_take returned normally", ok, rp, rc)
-            # and it renders the assembled request
-            arg = rc.args[0] if rc.args else None
-            fed = any(isinstance(rcfg.nodes[rcfg.loc1(f_)].ast, ast.Assign) and isinstance(arg, ast.Name) and any(isinstance(t, ast.Name) and t.id == arg.id for t in rcfg.nodes[rcfg.loc1(f_)].ast.targets) for f_ in feeds)
-            ctx.ob("the handler is rendered with the assembled request", fed, rp, rc)
-            inl = any(isinstance(p_, ast.Lambda) for p_ in _ancestors(rcfg, rc))
-            e2 = [c_ for c_ in calls_in(rp.node) if isinstance(c_.func, ast.Attribute) and c_.func.attr == "extract_or_insert"]
-            ctx.ob("the rendering goes through the Block2 cache", inl and any(contains(c_, rc) for c_ in e2), rp, rc)
+            n_asm += 1
+            anchor = (e2[0][2] if e2 else (feeds[0][2] if feeds else rp.node))
+            ag.add("with block-wise assembly the handler is rendered only after feed_and_take returned normally", bool(feeds) and not direct and bool(e2) and all(feeds[0][0] < x[0] for x in e2), direct[0][1] if direct else anchor, construct="_render_to_pipe: assembly before rendering")
+            if not feeds or not e2:
+                continue
+            fed = feeds[0][3]
+            ag.add("the spool is fed with the pipe's request", len(fed.args) == 1 and same(fed.args[0], PREQ), feeds[0][2])
+            for i, ev, c_, r in e2:
+                a0 = _arg(r, 0, eoi_p[0])
+                cb = _arg(r, 1, eoi_p[1])
+                body = callable_body(sr, p, cb, ev) if cb is not None else None
+                through = isinstance(body, ast.Call) and chain(body.func) == "self.render"
+                ag.add("the rendering goes through the Block2 cache", through, c_, detail="builder %s" % (txt(cb) if cb is not None else None))
+                okarg = through and len(body.args) == 1 and same(body.args[0], fed) and a0 is not None and same(a0, fed)
+                ag.add("the handler is rendered with the assembled request", okarg, c_, detail="cache keyed by %s, handler called as %s" % (txt(a0) if a0 is not None else None, txt(body) if body is not None else None))
         else:
-            ctx.ob("without assembly the resource handles blocks itself", guarded_by(rcfg, nid, "await self.needs_blockwise_assembly($r)", False), rp, rc)
+            n_plain += 1
+            ag.add("without assembly the resource handles blocks itself", bool(direct) and not feeds, direct[0][1] if direct else rp.node, construct="_render_to_pipe: plain rendering")
+    ctx.floor("paths of Resource._render_to_pipe with block-wise assembly", n_asm, 1)
+    ctx.floor("paths of Resource._render_to_pipe without block-wise assembly", n_plain, 1)
+    ag.flush()
+
+
+def _explicit_kwargs(sx, p, call, facts):
+    """[(keyword dict, facts)] of a resolved call: explicit keywords plus `**{...}` displays (also behind a local) whose
+    keys evaluate to string constants; None when a key cannot be evaluated."""
+    out = []
+    for v, f in sx.value(call, facts):
+        kw = {}
+        ok = True
+        for k in v.keywords:
+            if k.arg is not None:
+                kw[k.arg] = k.value
+                continue
+            d = k.value
+            if isinstance(d, ast.Name) and d.id in p.objs:
+                d = p.objs[d.id]
+                got = list(sx.value(d, f))
+                if len(got) != 1:
+                    return None
+                d, f = got[0]
+            if not isinstance(d, ast.Dict):
+                ok = False
+                break
+            for kk, vv in zip(d.keys, d.values):
+                if isinstance(kk, ast.Constant) and isinstance(kk.value, str):
+                    kw[kk.value] = vv
+                else:
+                    ok = False
+        if not ok:
+            return None
+        out.append((kw, f))
+    return out
+
+
+def _dstar_escapes(EA, sx, fi, paths):
+    """Engine work-around: EscapeAnalysis.shape_for gives up the callee's `"k" in kwargs` specialisation when a call
+    passes `**mapping`.  For a call whose mapping is a display with constant (conditional) keys, analyse the equivalent
+    explicit-keyword calls instead (one per key set) and exempt the original site."""
+    extra = set()
+    done = {}
+    for p in paths:
+        for ev, c_, r in sx.calls(p):
+            if not any(k.arg is None for k in c_.keywords) or any(isinstance(a, ast.Starred) for a in c_.args):
+                continue
+            variants = _explicit_kwargs(sx, p, r, ev.facts)
+            if variants is None:
+                done[id(c_)] = None
+                continue
+            if done.get(id(c_), ()) is None:
+                continue
+            for kw, _f in variants:
+                explicit = [k for k in c_.keywords if k.arg is not None]
+                names = tuple(sorted(set(kw) - {k.arg for k in explicit}))
+                if names in done.setdefault(id(c_), set()):
+                    continue
+                done[id(c_)].add(names)
+                synth = ast.Call(func=c_.func, args=list(c_.args), keywords=explicit + [ast.keyword(arg=n, value=kw[n]) for n in names])
+                ast.copy_location(synth, c_)
+                ast.fix_missing_locations(synth)
+                extra |= set(EA._call(fi, synth, None, ev.node))
+    for cid, v in done.items():
+        if v:
+            EA.dead_nodes.add(cid)
+    return extra
 
 
 @R.clause("C06.f", "Block2: one rendering per block-0 request, later blocks are slices of it (4.08 if unknown, 4.00 beyond the end)")
 def f(ctx):
     prog = ctx.prog
     fi = prog.func(BW + "Block2Cache.extract_or_insert")
-    p = params(fi)
-    rq, builder = p[0], p[1]
+    pr = params(fi)
+    rq, builder = pr[0], pr[1]
     cfg = cfg_of(fi)
-    builds = [n for n in walk_no_nested(fi.node) if isinstance(n, ast.Call) and isinstance(n.func, ast.Name) and n.func.id == builder]
-    ctx.floor("builder invocations", len(builds), 1)
-    N = Normalizer()
-    for b_ in builds:
-        nid = cfg.loc1(b_)
-        gs = guard_exprs(cfg, nid)
-        # reachable exactly when block2 is None or block_number == 0: the two T pseudo nodes join, so test via paths:
-        t_none = [n.id for n in cfg.nodes if n.kind == "T" and match("%s.opt.block2 is None" % rq, n.ast) is not None]
-        t_zero = [n.id for n in cfg.nodes if n.kind == "T" and match("%s.opt.block2.block_number == 0" % rq, n.ast) is not None]
-        f_zero = [n.id for n in cfg.nodes if n.kind == "F" and match("%s.opt.block2.block_number == 0" % rq, n.ast) is not None]
-        ok = bool(t_none) and bool(t_zero) and bool(f_zero) and all(nid in cfg.reach({t}) for t in t_none + t_zero) and not any(nid in cfg.reach({t}) for t in f_zero) and \
-            not cfg.exists_path(cfg.entry, nid, avoid=set(t_none + t_zero))
-        ctx.ob("the handler is rendered iff Block2 is absent or asks for block 0", ok, fi, b_)
-    looks = [n for n in walk_no_nested(fi.node) if isinstance(n, ast.Subscript) and chain(n.value) == "self._completes" and isinstance(n.ctx, ast.Load)]
-    ctx.floor("cache lookups", len(looks), 1)
+    fields = _bt_fields(prog)
+    ctx.need(len(fields) == 3, "BlockwiseTuple does not have three fields")
+    B2 = P("%s.opt.block2" % rq)
+    sx = SymExec(prog, fi)
+    # a block option value is None or a (non-empty) BlockwiseTuple: `x or default` and `x is None` are the same fact
+    sx.nonempty_when_set = {txt(B2)}
+    sx.domains = _block_domains("%s.opt.block2" % rq, fields)
+    paths = sx.paths()
+    HASB2 = P("%s.opt.block2 is not None" % rq)
+    FIRST = P("%s.opt.block2 is None or %s.opt.block2.%s == 0" % (rq, rq, fields[0]))
+    K = P("_extract_block_key(%s)" % rq)
+    F = "self._completes"
     EA = EscapeAnalysis(prog)
-    for l in looks:
-        nid = cfg.loc1(l)
-        hs = [d for d, lab in cfg.succ[nid] if lab == "exc" and cfg.nodes[d].kind == "handler"]
-        okh = False
-        for h in hs:
-            hnode = cfg.nodes[h].ast
-            if hnode.type is not None and chain(hnode.type) in ("KeyError", "LookupError"):
-                rs = [cfg.nodes[x].ast for x in cfg.reach({h}) if cfg.nodes[x].kind == "raise"]
-                okh = bool(rs) and all(EA._exc_class(fi, r.exc) == "aiocoap.blockwise.IncompleteException" for r in rs) and cfg.exit not in cfg.reach({h}, skip_labels=("exc",))
-        ctx.ob("a later block without a stored rendering is answered 4.08", okh, fi, l)
-    es = EA.escapes(fi)
+    ag = _Agg(ctx, fi)
+    n_build = n_look = n_slice = 0
+    miss_sites = {}
+    for p in paths:
+        ctx.need(p.end in ("return", "fall", "raise"), "extract_or_insert: loop in the path model")
+        builds = list(_calls(sx, p, name=builder))
+        n_build += len(builds)
+        hits = [(ev, n, key) for ev, n, key in _reads(sx, p, F)]
+        misses = list(_failed_reads(sx, p, F, cfg))
+        n_look += len(hits) + len(misses)
+        anchor = builds[0][1] if builds else (hits[0][1] if hits else fi.node)
+        # 1. the handler runs on exactly the paths of a block-0 request, and once
+        for first, f_ in sx.decide(FIRST, p.facts):
+            ag.add("the handler is rendered iff Block2 is absent or asks for block 0", (len(builds) == 1) == first and len(builds) <= 1, anchor, construct="extract_or_insert: rendering decision", detail="%s: %d rendering(s)" % (_where(sx, f_), len(builds)))
+            if not first:
+                served = any(same(key, K) for _e, _n, key in hits) or (bool(misses) and p.end == "raise")
+                ag.add("a later block is served from the rendering stored under the transfer key", served, anchor, construct="extract_or_insert: later block", detail=_where(sx, f_))
+        for ev, n, key in hits:
+            ag.add("the cache is read with the transfer key of this request", same(key, K), n, detail=txt(key))
+        # 2. an unknown / expired transfer is 4.08
+        for ev, hid, key in misses:
+            okh = _handler_catches(cfg, hid, ("KeyError", "LookupError")) and p.end == "raise" and _end_class(EA, fi, p) == INCOMPLETE and not builds
+            it = miss_sites.setdefault(ev.nid, [ev.node, True])
+            it[1] = it[1] and okh
+        # 3. slicing
+        for ev, c_, r in _calls(sx, p, attr="_extract_block"):
+            n_slice += 1
+            recv = r.func.value
+            xb_p = params(prog.func("message.Message._extract_block"))
+            a0, a1 = _arg(r, 0, xb_p[0]), _arg(r, 1, xb_p[1])
+            ok_own = False
+            if a0 is not None and a1 is not None:
+                if sx.entails(ev.facts, HASB2):
+                    ok_own = _is_field(a0, fields, B2, fields[0]) and _is_field(a1, fields, B2, fields[2])
+                elif sx.refutes(ev.facts, HASB2):
+                    n0 = _field_of(a0, fields)
+                    ok_own = n0[0] == "val" and isinstance(n0[1], ast.Constant) and n0[1].value == 0 and type(n0[1].value) is int
+                else:
+                    ctx.need(False, "extract_or_insert: the slice is requested on a path that has not decided whether Block2 is present")
+            ag.add("the slice is taken with the request's own Block2 number and size exponent", ok_own, c_, detail="%s: number %s, size exponent %s" % (_where(sx, ev.facts), txt(a0) if a0 is not None else None, txt(a1) if a1 is not None else None))
+            fresh = [x for x in builds if isinstance(recv, ast.Await) and same(recv.value, x[2]) or same(recv, x[2])]
+            stored_hit = isinstance(recv, ast.Subscript) and chain(recv.value) == F and same(recv.slice, K)
+            ag.add("the slice is taken from the rendering just made or the stored one", bool(fresh) or stored_hit, c_, detail=txt(recv))
+            if builds:
+                kept = [s for s in _stores(p, F) if same(s.key, K) and same(s.value, recv) and p.events.index(s) <= p.events.index(ev)]
+                ag.add("a rendering that needs more than one block is stored for the later blocks", bool(kept), c_, construct="extract_or_insert: store", detail=_where(sx, ev.facts))
+        for s in _stores(p, F):
+            ag.add("the rendering is stored under the transfer key of this request", same(s.key, K), s.node, detail=txt(s.key))
+    ctx.floor("builder invocations", n_build, 1)
+    ctx.floor("cache lookups", n_look, 1)
+    ctx.floor("_extract_block sites", n_slice, 1)
+    ag.flush()
+    # every lookup site has its miss answered 4.08
+    look_nodes = {}
+    for n in walk_no_nested(fi.node):
+        if isinstance(n, ast.Subscript) and isinstance(n.ctx, ast.Load) and chain(resolve_local(fi.node, n.value)) == F:
+            look_nodes.setdefault(cfg.loc1(n), n)
+    for nid, n in look_nodes.items():
+        it = miss_sites.get(nid)
+        ctx.ob("a later block without a stored rendering is answered 4.08", it is not None and it[1], fi, n)
+    # escapes
+    xb = prog.func("message.Message._extract_block")
+    num, szx, mb = params(xb)
+    xs = SymExec(prog, xb, include_exc=False)
+    xpaths = xs.paths(assume=[("%s == 7" % szx, False)])  # the BERT arm (SZX 7) belongs to C05
+    extra = _dstar_escapes(EA, xs, xb, xs.paths())
+    es = set(EA.escapes(fi))
+    if extra and any(k[0] == xb.qn for k in EA.memo):
+        es |= {e_.with_via(xb.short).with_via(fi.short) for e_ in extra}
+        ctx.note("`**{...}` call in _extract_block analysed as its explicit-keyword equivalents (%d escape(s) of the callee)" % len(extra))
     # named exemption L3': Message.__init__'s `payload is None` TypeError cannot be triggered by copy(payload=<bytes slice>)
     bad = []
     for e_ in es:
@@ -351,178 +785,254 @@ def f(ctx):
     if not bad:
         ctx.ob("escape set of extract_or_insert (excluding the handler's own exceptions) is within {Incomplete, BadRequest}", True, fi, fi.node, construct="Block2Cache.extract_or_insert")
     ctx.need(not [u for u in EA.unresolved], "unresolved calls in extract_or_insert region: %s" % EA.unresolved[:3])
-    # slicing via _extract_block with the request's block number and size exponent
-    ex = [c_ for c_ in calls_in(fi.node) if isinstance(c_.func, ast.Attribute) and c_.func.attr == "_extract_block"]
-    ctx.floor("_extract_block sites", len(ex), 1)
-    for c_ in ex:
-        a0 = c_.args
-        ok = len(a0) == 3 and chain(a0[0]).endswith(".block_number") and chain(a0[1]).endswith(".size_exponent") and chain(a0[0]).split(".")[0] == chain(a0[1]).split(".")[0]
-        src = resolve_local(fi.node, ast.Name(id=chain(a0[0]).split(".")[0], ctx=ast.Load())) if ok else None
-        ok2 = src is not None and isinstance(src, ast.BoolOp) and isinstance(src.op, ast.Or) and chain(src.values[0]) == rq + ".opt.block2"
-        ctx.ob("the slice is taken with the request's own Block2 number and size exponent", ok and ok2, fi, c_)
-        recv = c_.func.value
-        okr = isinstance(recv, ast.Name) and len(writes_to_name(fi.node, recv.id)) == 2
-        ctx.ob("the slice is taken from the rendering just made or the stored one", okr, fi, c_)
-    st = [(k, n) for k, n in stores_to(fi.node, "self._completes", nested=False) if k == "setitem"]
-    ctx.ob("a rendering that needs more than one block is stored for the later blocks", len(st) == 1, fi, st[0][1] if st else fi.node, construct=stmt_text(st[0][1]) if st else "extract_or_insert: store")
-    for k, n in st:
-        for c_ in ex:
-            ctx.ob("the rendering is stored before the first slice is returned", cfg.dominates(cfg.loc1(n), cfg.loc1(c_)), fi, n)
-    # _extract_block arithmetic (non-BERT arm) -- RFC 7959: size 2**(szx+4), start num*size, more iff bytes remain
-    xb = prog.func("message.Message._extract_block")
-    num, szx, mb = params(xb)
-    xcfg = cfg_of(xb)
-    # roles are identified structurally, not by name: the payload slice self.payload[S:E] gives the start and end
-    # locals, the option tuple (number, M, size_exp) gives the more local, and the non-BERT start definition
-    # `number * X` gives the size local
-    sl = [n for n in walk_no_nested(xb.node) if isinstance(n, ast.Subscript) and chain(n.value) == "self.payload" and isinstance(n.slice, ast.Slice) and isinstance(n.slice.lower, ast.Name) and n.slice.upper is not None and n.slice.step is None]
-    ctx.need(len(sl) == 1, "_extract_block: the payload slice self.payload[start:end] was not found")
-    S = sl[0].slice.lower.id
-    E = sl[0].slice.upper.id if isinstance(sl[0].slice.upper, ast.Name) else None
-    start_defs = [n for n in writes_to_name(xb.node, S) if isinstance(n, ast.Assign)]
-    nonbert_start = [n for n in start_defs if guarded_by(xcfg, xcfg.loc1(n), "%s == 7" % szx, False)]
-    ctx.need(len(nonbert_start) == 1, "_extract_block: non-BERT start definition not found")
-    mb_ = match("%s * $x" % num, nonbert_start[0].value) or match("$x * %s" % num, nonbert_start[0].value)
-    Nn = Normalizer()
-    if mb_ is not None and isinstance(mb_["x"], ast.Name):
-        Z = mb_["x"].id
-        size_defs = [n for n in writes_to_name(xb.node, Z) if isinstance(n, ast.Assign)]
-        nonbert_size = [n for n in size_defs if guarded_by(xcfg, xcfg.loc1(n), "%s == 7" % szx, False)]
-        ctx.need(len(nonbert_size) == 1, "_extract_block: non-BERT size definition not found")
-        size_p = Nn.poly(nonbert_size[0].value)
-        ctx.ob("block size is 2**(SZX+4)", size_p == Nn.poly(ast.parse("2**(%s+4)" % szx, mode="eval").body), xb, nonbert_size[0], detail=repr(size_p), construct="_extract_block size: %s" % stmt_text(nonbert_size[0].value))
-        st_p = Normalizer(penv={Z: size_p}).poly(nonbert_start[0].value)
-    else:
-        Z = None
-        size_p = Nn.poly(ast.parse("2**(%s+4)" % szx, mode="eval").body)
-        st_p = Nn.poly(nonbert_start[0].value)
-    ctx.ob("block offset is NUM * 2**(SZX+4)", st_p == Poly.atom(num) * Nn.poly(ast.parse("2**(%s+4)" % szx, mode="eval").body), xb, nonbert_start[0], detail=repr(st_p), construct="_extract_block start: %s" % stmt_text(nonbert_start[0].value))
-    raises = [n for n in walk_no_nested(xb.node) if isinstance(n, ast.Raise)]
-    N2 = Normalizer()
-    okr = False
-    for r in raises:
-        facts = cmp_guard_nf(xcfg, xcfg.loc1(r), N2)
-        cls = EA._exc_class(xb, r.exc)
-        if ("lt", Poly.atom("len(self.payload)") - Poly.atom(S) - Poly.const(1)) in facts and cls == "aiocoap.error.BadRequest":
-            okr = True
-    ctx.ob("a block starting at or beyond the end of the body is answered 4.00", okr, xb, raises[0] if raises else xb.node, construct="_extract_block out-of-range guard")
-    end_defs = [n for n in writes_to_name(xb.node, E) if isinstance(n, ast.Assign)] if E else []
-    oke = False
-    ss = Poly.atom(S) + (Poly.atom(Z) if Z else size_p)
-    ln = Poly.atom("len(self.payload)")
-    clamped_end = False  # the upper bound is min(start+size, len) (True) or start+size relying on slice clamping (False)
-    if E is None:
-        try:
-            oke = N2.poly(sl[0].slice.upper) == ss
-        except NormError:
-            oke = False
-    elif len(end_defs) == 1:
-        v = end_defs[0].value
-        mm = match("min($a, $b)", v)
-        if mm is not None:
-            oke = {repr(N2.poly(mm["a"])), repr(N2.poly(mm["b"]))} == {repr(ss), repr(ln)}
-            clamped_end = oke
-        elif isinstance(v, ast.IfExp):
-            try:
-                t = N2.cmp(v.test)
-                a_, b__ = N2.poly(v.body), N2.poly(v.orelse)
-                if t == ("lt", ss - ln) or t == ("lt", ss - ln - Poly.const(1)):
-                    oke = a_ == ss and b__ == ln
-                elif t == ("lt", ln - ss) or t == ("lt", ln - ss - Poly.const(1)):
-                    oke = a_ == ln and b__ == ss
-                clamped_end = oke
-            except NormError:
-                oke = False
-        else:
-            try:
-                oke = N2.poly(v) == ss
-            except NormError:
-                oke = False
-    ctx.ob("the slice ends at min(start + size, len(body)) (explicitly, or start + size with slice clamping)", oke, xb, end_defs[0] if end_defs else sl[0], construct="_extract_block end")
-    # the option tuple (number, M, size_exp)
-    bo = []
-    for n in walk_no_nested(xb.node):
-        if isinstance(n, ast.Tuple) and len(n.elts) == 3 and isinstance(n.elts[0], ast.Name) and n.elts[0].id == num and isinstance(n.elts[2], ast.Name) and n.elts[2].id == szx and isinstance(n.elts[1], ast.Name):
-            bo.append(n)
-    ctx.ob("the block option of the answer is (NUM, more, SZX) as requested", len(bo) == 1, xb, bo[0] if bo else xb.node, construct="_extract_block option")
-    okm = False
-    more_defs = []
-    if bo:
-        M = bo[0].elts[1].id
-        more_defs = [n for n in writes_to_name(xb.node, M) if isinstance(n, ast.Assign)]
-        if len(more_defs) == 1:
-            v = more_defs[0].value
-            if isinstance(v, ast.IfExp) and isinstance(v.body, ast.Constant) and v.body.value is True and isinstance(v.orelse, ast.Constant) and v.orelse.value is False:
-                v = v.test
-            try:
-                got = N2.cmp(v)
-                okm = got == ("lt", ss - ln) or (E is not None and got == ("lt", Poly.atom(E) - ln))
-            except NormError:
-                okm = False
-    ctx.ob("the more-flag is set exactly when bytes remain after the slice (end < len(body))", okm, xb, more_defs[0] if more_defs else xb.node, construct="_extract_block more")
-    # the slice and the option reach the copy
-    cps = [c_ for c_ in calls_in(xb.node) if call_name(c_) == "self.copy"]
-    okc = bool(cps)
-    for c_ in cps:
-        pk = next((k.value for k in c_.keywords if k.arg == "payload"), None)
-        bk_ = [k.value for k in c_.keywords if k.arg in ("block1", "block2")]
-        okc = okc and pk is not None and resolve_local(xb.node, pk) is sl[0] and len(bk_) == 1 and bo and resolve_local(xb.node, bk_[0]) is bo[0]
-    ctx.ob("the answer carries body[start:end] and that block option", okc, xb, cps[0] if cps else xb.node, construct="_extract_block result")
+    # _extract_block (non-BERT) -- RFC 7959: size 2**(SZX+4), start NUM*size; refused iff start >= len(body);
+    # the answer is body[start:min(start+size, len)], the more-flag is set iff start+size < len(body)
+    N = Normalizer()
+    SIZE = "2 ** (%s + 4)" % szx
+    START = "%s * %s" % (num, SIZE)
+    LEN = "len(self.payload)"
+    OUT = P("%s >= %s" % (START, LEN))
+    REMAIN = P("%s + %s < %s" % (START, SIZE, LEN))
+    start_p = N.poly(P(START))
+    end_p = N.poly(P("%s + %s" % (START, SIZE)))
+    ag = _Agg(ctx, xb)
+    n_ret = n_raise = 0
+    for p in xpaths:
+        ctx.need(p.end in ("return", "raise"), "_extract_block: a path neither returns a message nor raises")
+        if p.end == "raise":
+            n_raise += 1
+            ev = p.raised()
+            ok = _exc_of(EA, xb, ev) == BADREQ and xs.entails(p.facts, OUT)
+            ag.add("a block starting at or beyond the end of the body is answered 4.00", ok, ev.node, construct="_extract_block out-of-range guard", detail="%s raised %s" % (_exc_of(EA, xb, ev), _where(xs, p.facts)))
+            continue
+        n_ret += 1
+        rnode = next(ev.node for ev in reversed(p.events) if ev.kind == "ret")
+        ag.add("a block starting at or beyond the end of the body is answered 4.00", xs.refutes(p.facts, OUT), rnode, construct="_extract_block out-of-range guard", detail="a message is returned %s" % _where(xs, p.facts))
+        ret = p.ret
+        ctx.need(isinstance(ret, ast.Call) and chain(ret.func) == "self.copy", "_extract_block does not return self.copy(...)")
+        kws = _explicit_kwargs(xs, p, ret, p.facts)
+        ctx.need(kws is not None and len(kws) >= 1, "_extract_block: keyword arguments of copy() are not constant names")
+        for kw, f_ in kws:
+            pay = kw.get("payload")
+            sl = pay if isinstance(pay, ast.Subscript) and chain(pay.value) == "self.payload" and isinstance(pay.slice, ast.Slice) and pay.slice.step is None else None
+            opts = [k for k in ("block1", "block2") if k in kw]
+            opt = kw[opts[0]] if len(opts) == 1 else None
+            is_req = [b_ for b_, _ in xs.decide(P("self.code.is_request()"), f_)]
+            right_opt = len(opts) == 1 and (len(is_req) != 1 or opts[0] == ("block1" if is_req[0] else "block2"))
+            ag.add("the answer carries body[start:end] and that block option", sl is not None and right_opt, rnode, construct="_extract_block result", detail="payload %s, options %s" % (txt(pay) if pay is not None else None, opts))
+            if sl is not None:
+                lo, up = sl.slice.lower, sl.slice.upper
+                try:
+                    ok_lo = lo is not None and N.poly(lo) == start_p
+                except NormError:
+                    ok_lo = False
+                ag.add("block offset is NUM * 2**(SZX+4)", ok_lo, rnode, construct="_extract_block start", detail=txt(lo) if lo is not None else "open")
+                if isinstance(up, ast.Constant) and up.value is None:
+                    up = None
+                for rem, f2 in xs.decide(REMAIN, f_):
+                    if up is None:
+                        ok_up = not rem
+                    else:
+                        ok_up = True
+                        for u, f3 in xs.value(up, f2):
+                            try:
+                                if rem:
+                                    ok_up = ok_up and N.poly(u) == end_p
+                                else:  # clamped explicitly, or relying on slice clamping: anything >= len(body)
+                                    ok_up = ok_up and xs.entails(f3, ast.Compare(left=u, ops=[ast.GtE()], comparators=[P(LEN)]))
+                            except NormError:
+                                ok_up = False
+                    ag.add("the slice ends at min(start + size, len(body)) (explicitly, or start + size with slice clamping)", ok_up, rnode, construct="_extract_block end", detail="%s: upper bound %s" % (_where(xs, f2), txt(up) if up is not None else "open"))
+            if opt is not None:
+                ok_t = isinstance(opt, ast.Tuple) and len(opt.elts) == 3 and same(opt.elts[0], ast.Name(id=num, ctx=ast.Load())) and same(opt.elts[2], ast.Name(id=szx, ctx=ast.Load()))
+                ag.add("the block option of the answer is (NUM, more, SZX) as requested", ok_t, rnode, construct="_extract_block option", detail=txt(opt))
+                if ok_t:
+                    okm = True
+                    for rem, f2 in xs.decide(REMAIN, f_):
+                        for mv, _f3 in xs.decide(opt.elts[1], f2):
+                            okm = okm and (mv == rem)
+                    ag.add("the more-flag is set exactly when bytes remain after the slice (end < len(body))", okm, rnode, construct="_extract_block more", detail="%s: more = %s" % (_where(xs, f_), txt(opt.elts[1])))
+    ctx.floor("_extract_block: paths returning a block", n_ret, 1)
+    ag.add("a block starting at or beyond the end of the body is answered 4.00", n_raise >= 1, xb.node, construct="_extract_block out-of-range guard", detail="no path raises")
+    ag.flush()
+
+
+def _tick_filter(ctx, st, tk, p):
+    """The expiry step on one path of TimeoutDict._tick.  Recognised spellings of "keep the entries whose key is in
+    _recently_accessed": a dict comprehension / dict(generator) over the old items assigned to self._items, a fresh
+    dict filled in a loop over the old items and then assigned, deletion in place while looping over a copy of the keys.
+    -> (ok, detail, expression whose truth says that items remain, index of the last event of the step, anchor node)"""
+    ITEMS = "self._items"
+    RA = "self._recently_accessed"
+
+    def recent(kx):
+        return ast.Compare(left=kx, ops=[ast.In()], comparators=[P(RA)])
+
+    ws = _stores(p, ITEMS, "store")
+    loops = [(ev, _iter_roles(st, ev.value, ev.target, ITEMS)) for ev in p.evs("for")]
+    loops = [(ev, r) for ev, r in loops if r is not None]
+    has_loop = any(_iter_roles(st, st.subst(n.iter, p.env, {}), n.target, ITEMS) is not None for n in walk_no_nested(tk.node) if isinstance(n, ast.For))
+    if not ws:
+        # in place: `for k in list(self._items): if k not in recent: del self._items[k]`
+        ctx.need(has_loop, "_tick: neither an assignment of self._items nor a loop over its keys")
+        dels = [ev for ev in p.evs("delitem") if chain(ev.target) == ITEMS]
+        pops = [ev for ev, c_, r in st.calls(p) if isinstance(r.func, ast.Attribute) and r.func.attr == "pop" and chain(r.func.value) == ITEMS]
+        ctx.need(not pops, "_tick: entries removed with pop() are outside the rule's vocabulary")
+        anchor = next((n for n in walk_no_nested(tk.node) if isinstance(n, ast.For)), tk.node)
+        ok, detail = True, None
+        last = 0
+        for ev, roles in loops:
+            mine = [x for x in dels if same(x.key, roles[0])]
+            last = max([p.events.index(ev)] + [p.events.index(x) for x in mine])
+            if [x for x in dels if x not in mine]:
+                ok, detail = False, "deletes %s" % txt([x for x in dels if x not in mine][0].key)
+            for x in mine:
+                if not st.refutes(x.facts, recent(roles[0])):
+                    ok, detail = False, "an entry is dropped %s" % _where(st, x.facts)
+            if not mine and not st.entails(p.facts, recent(roles[0])):
+                ok, detail = False, "an entry is kept %s" % _where(st, p.facts)
+            # deleting while iterating needs a copy of the keys
+            raw = ev.value
+            if not (isinstance(raw, ast.Call) and chain(raw.func) in ("list", "tuple", "sorted")):
+                ok, detail = False, "the dictionary is modified while it is iterated"
+        if not loops and dels:
+            ok, detail = False, "entries deleted outside the loop"
+        return ok, detail, P(ITEMS), last, anchor
+    anchor = ws[-1].node
+    if len(ws) != 1:
+        return False, "%d assignments of self._items" % len(ws), ws[-1].value, p.events.index(ws[-1]), anchor
+    V = ws[-1].value
+    widx = p.events.index(ws[-1])
+    comp = p.objs[V.id] if isinstance(V, ast.Name) and V.id in p.objs else V
+    if isinstance(comp, ast.Call) and chain(comp.func) == "dict" and len(comp.args) == 1 and not comp.keywords and isinstance(comp.args[0], (ast.GeneratorExp, ast.ListComp)):
+        ge = comp.args[0]
+        if isinstance(ge.elt, ast.Tuple) and len(ge.elt.elts) == 2:
+            comp = ast.DictComp(key=ge.elt.elts[0], value=ge.elt.elts[1], generators=ge.generators)
+    if isinstance(comp, ast.DictComp):
+        if len(comp.generators) != 1 or comp.generators[0].is_async:
+            return False, "nested comprehension", V, widx, anchor
+        g_ = comp.generators[0]
+        roles = _iter_roles(st, g_.iter, g_.target, ITEMS)
+        if roles is None or not (same(comp.key, roles[0]) and same(comp.value, roles[1])):
+            return False, "element %s: %s for %s in %s" % (txt(comp.key), txt(comp.value), txt(g_.target), txt(g_.iter)), V, widx, anchor
+        cond = ast.BoolOp(op=ast.And(), values=list(g_.ifs)) if len(g_.ifs) > 1 else (g_.ifs[0] if g_.ifs else ast.Constant(value=True))
+        for b_, f_ in st.decide(cond, ws[-1].facts):
+            if not (st.entails(f_, recent(roles[0])) if b_ else st.refutes(f_, recent(roles[0]))):
+                return False, "an entry is %s %s" % ("kept" if b_ else "dropped", _where(st, f_)), V, widx, anchor
+        return True, None, V, widx, anchor
+    fresh_dict = (isinstance(comp, ast.Dict) and not comp.keys) or (isinstance(comp, ast.Call) and chain(comp.func) == "dict" and not comp.args and not comp.keywords)
+    ctx.need(isinstance(V, ast.Name) and V.id in p.objs and fresh_dict, "_tick: the new value of self._items (%s) is outside the rule's vocabulary" % txt(V))
+    # a fresh dict filled in a loop over the old items
+    if not has_loop:
+        return False, "no loop over the old items", V, widx, anchor
+    fills = [ev for ev in p.evs("setitem") if same(ev.target, V)]
+    ok, detail = True, None
+    for ev, roles in loops:
+        mine = [x for x in fills if same(x.key, roles[0])]
+        if [x for x in fills if x not in mine]:
+            ok, detail = False, "stores %s" % txt([x for x in fills if x not in mine][0].key)
+        for x in mine:
+            if not (same(x.value, roles[1]) and st.entails(x.facts, recent(roles[0])) and p.events.index(x) < widx):
+                ok, detail = False, "an entry is kept %s" % _where(st, x.facts)
+        if not mine and not st.refutes(p.facts, recent(roles[0])):
+            ok, detail = False, "an entry is dropped %s" % _where(st, p.facts)
+    if not loops and fills:
+        ok, detail = False, "entries stored outside a loop over the old items"
+    return ok, detail, V, widx, anchor
 
 
 @R.clause("C06.g", "TimeoutDict: refreshed on get and set, expiry keeps exactly the recently used keys; lifetime is MAX_TRANSMIT_WAIT")
 def g(ctx):
+    prog = ctx.prog
     td = "util.asyncio.timeoutdict.TimeoutDict."
     for name in ("__getitem__", "__setitem__"):
-        fi = ctx.prog.func(td + name)
+        fi = prog.func(td + name)
         key = params(fi)[0]
-        cfg = cfg_of(fi)
-        acc = [c_ for c_, b_ in find("self._accessed(%s)" % key, fi.node)]
-        ctx.ob("%s marks the key as recently used on every normal path" % name, bool(acc) and cfg.must_pass(cfg.entry, [cfg.loc1(a_) for a_ in acc]), fi, acc[0] if acc else fi.node, construct="TimeoutDict.%s refresh" % name)
-    acc = ctx.prog.func(td + "_accessed")
+        sx = SymExec(prog, fi, include_exc=False)
+        ok = True
+        site = None
+        for p in sx.paths():
+            if p.end == "raise":
+                continue
+            acc = [c_ for ev, c_, r in sx.calls(p) if chain(r.func) == "self._accessed" and len(r.args) == 1 and same(r.args[0], ast.Name(id=key, ctx=ast.Load()))]
+            site = site or (acc[0] if acc else None)
+            ok = ok and bool(acc)
+        ctx.ob("%s marks the key as recently used on every normal path" % name, ok and site is not None, fi, site if site is not None else fi.node, construct="TimeoutDict.%s refresh" % name)
+    acc = prog.func(td + "_accessed")
     key = params(acc)[0]
-    cfg = cfg_of(acc)
-    adds = [c_ for c_, b_ in find("self._recently_accessed.add(%s)" % key, acc.node)]
-    starts = [c_ for c_, b_ in find("self._start_over()", acc.node)]
-    ok = bool(adds) and bool(starts) and cfg.must_pass(cfg.entry, [cfg.loc1(x) for x in adds + starts])
-    ctx.ob("_accessed either records the key or starts the timer (during whose first period everything survives)", ok, acc, acc.node, construct="TimeoutDict._accessed")
-    for s in starts:
-        ctx.ob("the timer is started only when none is running", guarded_by(cfg, cfg.loc1(s), "self._timeout is None", True), acc, s)
-    so = ctx.prog.func(td + "_start_over")
-    cl = [c_ for c_ in calls_in(so.node) if isinstance(c_.func, ast.Attribute) and c_.func.attr == "call_later"]
-    okc = len(cl) == 1 and chain(cl[0].args[0]) == "self.timeout" and chain(cl[0].args[1]) == "self._tick"
-    ctx.ob("_start_over arms call_later(self.timeout, self._tick)", okc, so, cl[0] if cl else so.node)
-    rs = [n for n in walk_no_nested(so.node) if isinstance(n, ast.Assign) and chain(n.targets[0]) == "self._recently_accessed"]
-    okr = len(rs) == 1 and ((isinstance(rs[0].value, ast.Call) and chain(rs[0].value.func) == "set" and not rs[0].value.args) or (isinstance(rs[0].value, ast.Set) and not rs[0].value.elts))
-    ctx.ob("_start_over resets the set of recently used keys", okr, so, rs[0] if rs else so.node)
-    tk = ctx.prog.func(td + "_tick")
-    tcfg = cfg_of(tk)
-    st = [n for n in walk_no_nested(tk.node) if isinstance(n, ast.Assign) and chain(n.targets[0]) == "self._items"]
-    okt = False
-    if len(st) == 1 and isinstance(st[0].value, ast.DictComp):
-        dc = st[0].value
-        g_ = dc.generators[0]
-        if match("self._items.items()", g_.iter) is not None and len(g_.ifs) == 1:
-            cond = g_.ifs[0]
-            kname = g_.target.elts[0].id if isinstance(g_.target, ast.Tuple) else None
-            okt = match("%s in self._recently_accessed" % kname, cond) is not None and chain(dc.key) == kname
-    ctx.ob("_tick keeps exactly the keys used since the previous tick", okt, tk, st[0] if st else tk.node, construct="TimeoutDict._tick filter")
-    so_calls = [c_ for c_, b_ in find("self._start_over()", tk.node)]
-    okre = bool(so_calls) and all(guarded_by(tcfg, tcfg.loc1(c_), "self._items", True) for c_ in so_calls) and all(tcfg.dominates(tcfg.loc1(st[0]), tcfg.loc1(c_)) for c_ in so_calls) if st else False
-    ctx.ob("_tick re-arms iff items remain (after filtering)", okre, tk, so_calls[0] if so_calls else tk.node, construct="TimeoutDict._tick re-arm")
-    clr = [n for n in walk_no_nested(tk.node) if isinstance(n, ast.Assign) and chain(n.targets[0]) == "self._timeout" and isinstance(n.value, ast.Constant) and n.value.value is None]
-    ctx.ob("otherwise the timer is marked as not running", bool(clr) and all(guarded_by(tcfg, tcfg.loc1(n), "self._items", False) for n in clr), tk, clr[0] if clr else tk.node, construct="TimeoutDict._tick idle")
+    sa = SymExec(prog, acc, include_exc=False)
+    IDLE = P("self._timeout is None")
+    ag = _Agg(ctx, acc)
+    for p in sa.paths():
+        if p.end == "raise":
+            continue
+        starts = [c_ for ev, c_, r in sa.calls(p) if chain(r.func) == "self._start_over"]
+        adds = [c_ for ev, c_, r in sa.calls(p) if isinstance(r.func, ast.Attribute) and r.func.attr == "add" and chain(r.func.value) == "self._recently_accessed" and len(r.args) == 1 and same(r.args[0], ast.Name(id=key, ctx=ast.Load()))]
+        for idle, f_ in sa.decide(IDLE, p.facts):
+            ag.add("_accessed either records the key or starts the timer (during whose first period everything survives)", bool(starts) if idle else bool(adds), acc.node, construct="TimeoutDict._accessed", detail=_where(sa, f_))
+            if not idle:
+                ag.add("the timer is started only when none is running", not starts, starts[0] if starts else acc.node, construct="TimeoutDict._accessed: start", detail=_where(sa, f_))
+    ag.flush()
+    so = prog.func(td + "_start_over")
+    ss = SymExec(prog, so, include_exc=False)
+    ag = _Agg(ctx, so)
+    for p in ss.paths():
+        if p.end == "raise":
+            continue
+        cl = [(c_, r) for ev, c_, r in ss.calls(p) if isinstance(r.func, ast.Attribute) and r.func.attr == "call_later"]
+        okc = len(cl) == 1 and len(cl[0][1].args) >= 2 and chain(cl[0][1].args[0]) == "self.timeout" and chain(cl[0][1].args[1]) == "self._tick"
+        tm = [ev for ev in _stores(p, "self._timeout", "store")]
+        okc = okc and bool(tm) and same(tm[-1].value, cl[0][1])
+        ag.add("_start_over arms call_later(self.timeout, self._tick)", okc, cl[0][0] if cl else so.node, construct="TimeoutDict._start_over: timer")
+        rs = _stores(p, "self._recently_accessed", "store")
+        v = rs[-1].value if rs else None
+        okr = v is not None and ((isinstance(v, ast.Call) and chain(v.func) == "set" and not v.args and not v.keywords) or (isinstance(v, ast.Set) and not v.elts))
+        ag.add("_start_over resets the set of recently used keys", okr, rs[-1].node if rs else so.node, construct="TimeoutDict._start_over: reset")
+    ag.flush()
+    # _tick: new items = the old items whose key was used since the previous tick; re-arm iff any remain
+    tk = prog.func(td + "_tick")
+    st = SymExec(prog, tk, include_exc=False)
+    ag = _Agg(ctx, tk)
+    n_paths = 0
+    for p in st.paths():
+        if p.end == "raise":
+            continue
+        n_paths += 1
+        okf, detail, V, widx, anchor = _tick_filter(ctx, st, tk, p)
+        ag.add("_tick keeps exactly the keys used since the previous tick", okf, anchor, construct="TimeoutDict._tick filter", detail=detail)
+        if V is None:
+            continue
+        so_calls = [(p.events.index(ev), c_) for ev, c_, r in st.calls(p) if chain(r.func) == "self._start_over"]
+        early = [c_ for i, c_ in so_calls if i < widx]
+        late = [c_ for i, c_ in so_calls if i > widx]
+        idle = [ev for ev in _stores(p, "self._timeout", "store") if isinstance(ev.value, ast.Constant) and ev.value.value is None and p.events.index(ev) > widx]
+        for remain, f_ in st.decide(V, p.facts):
+            if remain:
+                ag.add("_tick re-arms iff items remain (after filtering)", bool(late) and not early, (early or late or [anchor])[0], construct="TimeoutDict._tick re-arm", detail=_where(st, f_))
+            else:
+                ag.add("_tick re-arms iff items remain (after filtering)", not so_calls, so_calls[0][1] if so_calls else anchor, construct="TimeoutDict._tick re-arm", detail=_where(st, f_))
+                ag.add("otherwise the timer is marked as not running", bool(idle), idle[0].node if idle else anchor, construct="TimeoutDict._tick idle", detail=_where(st, f_))
+    ctx.floor("normal paths of TimeoutDict._tick", n_paths, 2)
+    ag.flush()
     # lifetimes
     for short, field in ((BW + "Block1Spool.__init__", "_assemblies"), (BW + "Block2Cache.__init__", "_completes")):
-        fi = ctx.prog.func(short)
-        st = [n for n in walk_no_nested(fi.node) if isinstance(n, ast.Assign) and chain(n.targets[0]) == "self." + field]
-        ok = False
-        if len(st) == 1:
-            b_ = match("TimeoutDict($t)", st[0].value)
-            if b_ is not None:
-                t = b_["t"]
+        fi = prog.func(short)
+        si = SymExec(prog, fi, include_exc=False)
+        tdp = params(prog.func(td + "__init__"))
+        for p in si.paths():
+            if p.end == "raise":
+                continue
+            w = _stores(p, "self." + field, "store")
+            ok = False
+            if len(w) == 1 and isinstance(w[0].value, ast.Call) and (chain(w[0].value.func) or "").split(".")[-1] == "TimeoutDict":
+                t = _arg(w[0].value, 0, tdp[0])
+                if isinstance(t, ast.Name):  # a module-level constant
+                    try:
+                        t = prog.module_const(fi.module.name, t.id)
+                    except AnchorError:
+                        pass
                 ok = isinstance(t, ast.Attribute) and t.attr == "MAX_TRANSMIT_WAIT" and isinstance(t.value, ast.Call) and (chain(t.value.func) or "").endswith("TransportTuning")
-        ctx.ob("%s lives MAX_TRANSMIT_WAIT after its last use" % field, ok, fi, st[0] if st else fi.node)
+            ctx.ob("%s lives MAX_TRANSMIT_WAIT after its last use" % field, ok, fi, w[0].node if w else fi.node, construct="%s lifetime" % field)
 
 
 F_B = "aiocoap/blockwise.py"
@@ -531,22 +1041,31 @@ F_T = "aiocoap/util/asyncio/timeoutdict.py"
 R.seed("C06.a", F_B, "            except (KeyError, ValueError):", "            except KeyError:", "gap/overlap becomes 5.00 (applies to the repaired tree)")
 R.seed("C06.a", F_B, "    code = codes.REQUEST_ENTITY_INCOMPLETE", "    code = codes.BAD_REQUEST", "4.08 rendered as 4.00")
 R.seed("C06.a", F_M, "                raise error.BadRequest(\"Payload size does not match Block1\")", "                raise ValueError(\"Payload size does not match Block1\")", "size mismatch not rendered as 4.00")
+R.seed("C06.a", F_B, "        if req.opt.block1.more:\n            raise ContinueException(req.opt.block1)", "        if not req.opt.block1.more:\n            raise ContinueException(req.opt.block1)", "2.31 for the final block")
 R.seed("C06.b", F_B, "            raise ContinueException(req.opt.block1)", "            raise ContinueException((0, True, req.opt.block1.size_exponent))", "Continue does not echo the block")
 R.seed("C06.b", F_B, "        m.opt.block1 = self.block1\n", "", "Continue without Block1")
 R.seed("C06.c", F_B, "        message.remote.blockwise_key,\n", "        None,\n", "remote dropped from the transfer key")
 R.seed("C06.c", F_B, "        message.code,\n", "        None,\n", "method dropped from the transfer key")
 R.seed("C06.c", F_B, "                OptionNumber.BLOCK1,\n", "", "Block1 part of the key: every block a new transfer")
+R.seed("C06.c", F_M, "            if option.number in ignore_options or (", "            if option.number not in ignore_options or (", "ignore list inverted")
 R.seed("C06.d", F_M, "        if block1.start == len(self.payload):", "        if block1.start <= len(self.payload):", "overlap accepted")
 R.seed("C06.d", F_M, "            if len(next_block.payload) == block1.size:", "            if len(next_block.payload) <= block1.size:", "short non-final block accepted")
+R.seed("C06.d", F_M, "        else:\n            raise ValueError()\n", "", "a block out of place is silently dropped and the transfer goes on")
+R.seed("C06.d", F_M, "        if block1.more:\n            if len(next_block.payload) == block1.size:", "        if not block1.more:\n            if len(next_block.payload) == block1.size:", "size check on the final block only")
 R.seed("C06.e", F_B, "        if req.opt.block1.more:\n            raise ContinueException(req.opt.block1)", "        if False:\n            raise ContinueException(req.opt.block1)", "handler called on partial body")
 R.seed("C06.e", F_B, "        if req.opt.block1.block_number == 0:\n            # silently", "        if req.opt.block1.block_number <= 1:\n            # silently", "block 1 restarts the assembly")
 R.seed("C06.e", "aiocoap/interfaces.py", "            req = self._block1.feed_and_take(req)\n", "            self._block1.feed_and_take(req)\n", "handler sees the last block only")
+R.seed("C06.e", F_B, "            return self._assemblies[block_key]", "            return req", "handler sees the last block only (spool side)")
 R.seed("C06.f", F_B, "        if req.opt.block2 is None or req.opt.block2.block_number == 0:", "        if req.opt.block2 is None or req.opt.block2.block_number >= 0:", "every block re-rendered")
 R.seed("C06.f", F_B, "            except KeyError:\n                raise IncompleteException from None\n\n        if (", "            except KeyError:\n                assembled = await response_builder()\n\n        if (", "unknown later block re-renders")
 R.seed("C06.f", F_M, "        more = True if end < len(self.payload) else False", "        more = True if end <= len(self.payload) else False", "more-flag on the last block")
 R.seed("C06.f", F_M, "            size = 2 ** (size_exp + 4)\n            start = number * size\n\n        if start >= len(self.payload):", "            size = 2 ** (size_exp + 4)\n            start = number * size\n\n        if start > len(self.payload):", "empty block beyond the end")
 R.seed("C06.f", F_M, "            size = 2 ** (size_exp + 4)\n            start = number * size\n\n        if start", "            size = 2 ** (size_exp + 3)\n            start = number * size\n\n        if start", "wrong block size")
+R.seed("C06.f", F_M, "        end = start + size if start + size < len(self.payload) else len(self.payload)", "        end = start + size if start + size < len(self.payload) else len(self.payload) - 1", "last block loses a byte")
+R.seed("C06.f", F_B, "                block2.block_number,\n", "                0,\n", "every Block2 request gets block 0")
+R.seed("C06.f", F_B, "            self._completes[block_key] = assembled\n", "", "rendering not kept for the later blocks")
 R.seed("C06.g", F_T, "        result = self._items[key]\n        self._accessed(key)\n", "        result = self._items[key]\n", "reads do not refresh")
 R.seed("C06.g", F_T, "            k: v for (k, v) in self._items.items() if k in self._recently_accessed", "            k: v for (k, v) in self._items.items() if True", "nothing ever expires")
 R.seed("C06.g", F_B, "        self._assemblies = TimeoutDict(numbers.TransportTuning().MAX_TRANSMIT_WAIT)", "        self._assemblies = TimeoutDict(numbers.TransportTuning().ACK_TIMEOUT)", "state lives 2 s")
 R.seed("C06.g", F_T, "        if self._items:\n            self._start_over()", "        if not self._items:\n            self._start_over()", "timer stops while items remain")
+R.seed("C06.g", F_T, "        if self._timeout is None:\n            self._start_over()", "        if self._timeout is not None:\n            self._start_over()", "every access restarts the period and forgets the other keys")
